@@ -41,6 +41,8 @@ def _case(draw):
          "what": draw(st.sampled_from(["shapes", "shapes", "shapes", "bad_n", "bad_bs", "ctx_mismatch", "ks"]))}
     if c["what"] in ("bad_n", "bad_bs"):
         c["bad"] = draw(st.integers(0, len(BAD) - 1))
+    if kind == "standard":
+        c["ctx_dtype"] = draw(st.sampled_from(["float32", "float32", "int64", "float64"]))   # (class labels as context: only its row count matters here)
     if kind == "flow":
         t = draw(zoo.transform_case({"img": False, "regimes": ["fresh", "small"], "umnn": False, "doms": ["R"], "fn_box": False,
                                      "exclude": ["exp", "tanh", "sigmoid", "cauchycdf", "batchnorm", "actnorm", "logtanh"]}))   # (LogTanh^-1 grows like exp: two of them overflow ordinary noise to inf, then NaN)
@@ -145,6 +147,9 @@ def run_case(case):
                 D = int(np.prod(ev)) if ev else 1
                 ctx = torch.cat([100.0 * torch.arange(rows, dtype=torch.float32)[:, None].expand(rows, D),
                                  torch.full((rows, D), float(np.log(1e-2)))], 1)
+        if kind == "standard" and ctx is not None and case.get("ctx_dtype", "float32") != "float32":
+            ctx = (ctx * 3).round().long() if case["ctx_dtype"] == "int64" else ctx.double()
+            res.labels.append("ctx_dtype:" + case["ctx_dtype"])
         n, bs = case["n"], _bs(case)
         what = case["what"]
         res.labels += ["kind:" + kind, "what:" + what, "bs:" + case["bs"], "ctx:%s" % (ctx is not None), "event:%s" % ev]
@@ -285,6 +290,21 @@ def run_case(case):
                          "(%d fair-ish coin flips per row)" % (n_, n_ * D_))
                 return res
             res.labels.append("bernoulli_rows_independent")
+        if kind == "standard" and ctx is not None and what in ("shapes", "ks"):
+            # a StandardNormal ignores the VALUES of its context: every row receives standard-normal noise, whatever the context's dtype
+            with torch.no_grad():
+                big = obj.sample(1500, ctx, batch_size=bs) if bs is not None else obj.sample(1500, ctx)
+            if not big.dtype.is_floating_point:
+                res.fail("sample_dtype", site, "samples under a %s context have dtype %s" % (ctx.dtype, big.dtype), ctx_dtype=str(ctx.dtype))
+                return res
+            for r_ in range(big.shape[0]):
+                d = ks_statistic(big[r_].reshape(-1).double().numpy(), norm_cdf)
+                thr = ks_threshold(big[r_].numel())
+                res.see_ratio(d, thr)
+                if d > thr:
+                    res.fail("context_rows_distribution", site, "StandardNormal.sample(1500, context %s): row %d is not standard normal (KS %.4f > %.4f)" % (
+                        ctx.dtype, r_, d, thr), ctx_dtype=str(ctx.dtype))
+                    return res
         if what == "ks" and kind == "standard" and ctx is None:
             with torch.no_grad():
                 big = obj.sample(4000, None, batch_size=[7, 64, 999, 4001][case["seed"] % 4])
